@@ -273,6 +273,7 @@ type bbVerdict struct {
 	stored        bool // every valid line was found stored exactly
 	statusSkipped bool
 	retries5xx    int
+	flushed       bool // verified once more after a forced flush
 }
 
 func (e *bbEnv) dead(cs *caseJ, when string) error {
@@ -478,6 +479,50 @@ func (e *bbEnv) check(cs *caseJ) (v bbVerdict, err error) {
 			return v, terr
 		}
 	}
+	// The same answer once the rows have left the memory table: forced flush, then the same selection again (the
+	// statement is about what queries return, wherever the rows currently live).
+	if v.stored && len(exp) > 0 {
+		srv.Flush()
+		if !srv.Alive() {
+			return v, e.dead(cs, "while flushing")
+		}
+		q2 := ""
+		for i, m := range names {
+			if i > 0 {
+				q2 += "; "
+			}
+			q2 += "select * from " + bb.Quote(m) + " group by *"
+		}
+		res, qerr := srv.Query(dbName, q2, nil)
+		if !srv.Alive() {
+			return v, e.dead(cs, "while answering a query after the flush")
+		}
+		if qerr != nil || res.Err != "" || len(res.Results) != len(names) {
+			bb.Fatal("query after flush failed: %v %s", qerr, res.Err)
+		}
+		byID := map[int]bb.StmtResult{}
+		for _, r := range res.Results {
+			byID[r.ID] = r
+		}
+		for i, m := range names {
+			r := byID[i]
+			if r.Err != "" && !strings.Contains(r.Err, "measurement not found") {
+				return v, fmt.Errorf("after flush: query of %q failed: %s", m, r.Err)
+			}
+			obs, oerr := observe(r.Series)
+			if oerr != nil {
+				return v, fmt.Errorf("after flush: %v", oerr)
+			}
+			ex := exp[m]
+			if ex == nil {
+				ex = expected{}
+			}
+			if d, _, ln := diffAll(cs, ex, obs); d != "" {
+				return v, &violation{msg: fmt.Sprintf("HTTP %d; stored exactly while in the memory table, but after a flush: measurement %q: %s", status, m, d), line: ln}
+			}
+		}
+		v.flushed = true
+	}
 	return v, nil
 }
 
@@ -578,6 +623,9 @@ func TestWriteQueryRoundTrip(t *testing.T) {
 			c.Class("outcome_valid_batch_rejected")
 		default:
 			c.Class("outcome_rejected_as_a_whole")
+		}
+		if v.flushed {
+			c.Class("verified_again_after_flush")
 		}
 		if v.statusSkipped {
 			c.Excluded(exSilentDrop)
